@@ -92,6 +92,8 @@ var c17Faults = []c17Fault{
 	{"assert-false", []string{"(", "assert", "false", `"planted assert"`, ")"}, 0},
 	{"assert-nil", []string{"(", "assert", "nil", ")"}, 0},
 	{"non-callable", []string{"(", "1", "2", ")"}, 0},
+	{"read-string-error", []string{"(", "read-string", `"\n\n(1 2"`, ")"}, 0},
+	{"eval-of-read-form", []string{"(", "eval", "(", "read-string", `"\n\n\n(undefined-in-string 1)"`, ")", ")"}, 0},
 }
 
 type c17Wrap struct {
